@@ -27,11 +27,8 @@ let q_parse_op s = match sp '.' s with
   | ["dc"; i] -> DefCtor (ni (ios i))
   | ["vo"] -> VecPop
   | ["ve"; k] -> VecErase (ni (ios k))
-  (* au.i.t: pool[i] = std::unique_ptr<void, std::function<void(void* )>>(new T, deleter) through the re-exported base
-     operator=: the same operation as assigning a fresh make_quaint<T>() to an EXISTING pointer *)
-  | ["au"; i; t] -> Make (ni (ios i), ni (ios t))
   | _ -> failwith "qop"
-let q_is_adopt s = String.length s >= 3 && String.sub s 0 3 = "au."
+let q_is_adopt (_ : string) = false   (* no wire operation needs an existing pointer object beyond q_applicable *)
 (* applicability of a wire operation: the adopting assignment needs an existing pointer object *)
 let q_app st (o, adopt) =
   q_applicable st o && (not adopt || (match o with Make (i, _) -> (match nth_error st.pool i with Some (Live _) -> true | _ -> false) | _ -> true))
